@@ -314,8 +314,11 @@ def str (s : String) : List Char := s.toList
 
 /-- `matches!(name.units.last(), Some(Unquoted(Literal('$'))))` (`impl Display for FunctionDefinition`) -/
 def endsWithDollar (w : Word) : Bool :=
+  -- `match self.name.units.last()`: keyed on the LAST UNIT, whatever the units before it are (quoted parts,
+  -- parameters, …); the `$` may also be the last character of the name of a tilde expansion
   match w.getLast? with
   | some (.unquoted (.literal c)) => c = '$'
+  | some (.tilde name _) => name.getLast? = some '$'
   | _ => false
 
 def printRedirsSp : List Redir → List Char
